@@ -99,6 +99,30 @@ def LPS(a):
     return L(P(S(a)))
 
 
+def Lw(v):
+    r = 0
+    for j in range(64):
+        if (v >> (63 - j)) & 1:
+            r ^= A[j]
+    return r
+
+
+# Derived table (NOT part of RFC 6986, computed from pi and A above): because L and P are GF(2)-linear and S acts on
+# bytes, word i of L(P(S(x))) is the XOR over m = 0..7 of AX[m][byte i of word m of x], AX[m][b] = l(pi(b) << 8m).
+AX = [[Lw(PI[b] << (8 * m)) for b in range(256)] for m in range(8)]
+
+
+def LPS_tab(a):
+    w = [int.from_bytes(a[8 * j:8 * j + 8], "little") for j in range(8)]
+    out = bytearray()
+    for i in range(8):
+        r = 0
+        for m in range(8):
+            r ^= AX[m][(w[m] >> (8 * i)) & 0xFF]
+        out += r.to_bytes(8, "little")
+    return bytes(out)
+
+
 def E(k, m):
     for i in range(12):
         m = LPS(X(k, m))
@@ -162,6 +186,15 @@ def _gcrypt():
 
 
 def selfcheck(deep=False):
+    import random
+    rnd = random.Random(6986)
+    for _ in range(200 if deep else 20):
+        x = bytes(rnd.getrandbits(8) for _ in range(64))
+        assert LPS_tab(x) == LPS(x), "derived table form of LPS disagrees with the definition"
+    for p in range(64):                 # every byte position, every byte value (all other bytes zero)
+        for b in (range(256) if deep else (0, 1, 0x80, 0xFF)):
+            x = bytes(b if i == p else 0 for i in range(64))
+            assert LPS_tab(x) == LPS(x)
     for (bits, msg), hx in KAT.items():
         assert streebog(msg, bits).hex() == hx, "Streebog reference self check failed (known answer %d)" % bits
     ref = _gcrypt()
@@ -183,6 +216,11 @@ def gen():
     Ls += arr("v_gost_pi", "uint8_t", list(PI), "0x%02x", 16)
     Ls += arr("v_gost_tau", "uint8_t", TAU, "%d", 16)
     Ls += arr("v_gost_A", "uint64_t", A, "0x%016xull", 4)
+    Ls.append("/* derived from v_gost_pi and v_gost_A (see hashgen_streebog.py): AX[m][b] = l(pi(b) << 8m) */")
+    Ls.append("static const uint64_t v_gost_AX[8][256] = {")
+    for m in range(8):
+        Ls.append("\t{ " + ", ".join("0x%016xull" % v for v in AX[m]) + " },")
+    Ls.append("};")
     Ls.append("/* C1..C12 as 64 bytes each, least significant byte first */")
     Ls.append("static const uint8_t v_gost_C[12][64] = {")
     for c in C:
@@ -202,6 +240,14 @@ static void v_gost_L(uint8_t *o, const uint8_t *a) {
 	}
 }
 static void v_gost_LPS(uint8_t *o, const uint8_t *a) { uint8_t s[64], p[64]; v_gost_S(s, a); v_gost_P(p, s); v_gost_L(o, p); }
+/* the same function through the derived table, on eight little endian 64-bit words */
+static void v_gost_LPS_tab(uint64_t *o, const uint64_t *w) {
+	for (int i = 0; i < 8; i++) {
+		uint64_t r = v_gost_AX[0][(w[0] >> (8 * i)) & 0xff];
+		for (int m = 1; m < 8; m++) r ^= v_gost_AX[m][(w[m] >> (8 * i)) & 0xff];
+		o[i] = r;
+	}
+}
 /* a += b mod 2^512 */
 static void v_gost_add512(uint8_t *a, const uint8_t *b) {
 	unsigned c = 0;
